@@ -3,3 +3,5 @@ pub mod addrsort;
 pub mod eyeballs;
 pub mod sni;
 pub mod sniff;
+pub mod iomodel;
+pub mod timeout;
